@@ -15,8 +15,8 @@ from ..runner import jhash
 
 LEVEL = "exploration"
 RULE = ("programs = structural kernels with bundles / port references / arrays / pairs / no-connects, seeded random hierarchies, "
-        "built-in generators; each program is run in P fresh processes with different PYTHONHASHSEED values (incl. 'random'), "
-        "different amounts of unrelated allocation and elaboration beforehand and GC on/off; distinct = design label; "
+        "built-in generators, designs compiled to the four PDKs; each program is run in P fresh processes with different PYTHONHASHSEED values (incl. 'random'), "
+        "different amounts of unrelated allocation, elaboration and PDK compilation (of equal-valued, differently written sizes) beforehand and GC on/off; distinct = design label; "
         "non-trivial = the design exported in every process")
 ASSUMPTIONS = [
     "one machine, one interpreter build; 'different allocation histories' is approximated by seeded junk allocation / elaboration",
@@ -41,7 +41,7 @@ def configs(ctx, nproc):
     out = []
     for k in range(nproc):
         hs = str(k) if k % 5 != 4 else "random"
-        out.append((hs, {"junk_alloc": 0 if k == 0 else rng.randint(0, 400), "junk_elab": 0 if k == 0 else rng.randint(0, 12), "gc": k % 3 != 2}))
+        out.append((hs, {"junk_alloc": 0 if k == 0 else rng.randint(0, 400), "junk_elab": 0 if k == 0 else rng.randint(0, 12), "junk_pdk": 0 if k == 0 else rng.randint(0, 3), "gc": k % 3 != 2}))
     return out
 
 
